@@ -120,6 +120,28 @@ func verifHookMonitorWait(endpoint string, reported connectivity.State) {
 	}
 }
 
+// fifth hook: at the top of the loop body of the least-loaded scan (see bin/overlay.py); when armed, the pick is
+// stopped as it comes to the second channel of its list
+var verifScanArmed int32 // 0 = off, k > 0 = stop at the k-th visit of the hook from now
+var verifScanParked = make(chan chan struct{}, 1)
+
+func verifHookScan() {
+	for {
+		k := atomic.LoadInt32(&verifScanArmed)
+		if k <= 0 {
+			return
+		}
+		if atomic.CompareAndSwapInt32(&verifScanArmed, k, k-1) {
+			if k == 1 {
+				rel := make(chan struct{})
+				verifScanParked <- rel
+				<-rel
+			}
+			return
+		}
+	}
+}
+
 func verifHookDetect() {
 	if atomic.CompareAndSwapInt32(&verifDetectArmed, 1, 0) {
 		rel := make(chan struct{})
@@ -716,6 +738,8 @@ func (h *vPool) exec(line string) string {
 		ref.deCalls += uint32(d)
 		ref.mu.Unlock()
 		res = "ok"
+	case "scanpark":
+		res = h.doScanPark(a)
 	case "pick2":
 		res = h.doPick2(a)
 	case "done2":
@@ -751,7 +775,7 @@ func (h *vPool) exec(line string) string {
 	case "done":
 		id := atoi("call")
 		c, ok := h.calls[id]
-		if !ok {
+		if !ok || len(h.held) > 0 { // (a completion needs the pick mutex, which a stopped pick holds)
 			return "bad-op"
 		}
 		delete(h.calls, id)
@@ -825,6 +849,9 @@ func (h *vPool) doPick(a map[string]string, hold bool) string {
 	pn, _ := strconv.Atoi(a["picker"])
 	if _, dup := h.held[id]; dup || h.pickerBusy(pn) {
 		return "bad-op" // a stopped pick keeps the picker's mutex
+	}
+	if hold && len(h.waiting) > 0 {
+		return "bad-op" // a waiting round-robin pick needs the pick mutex when it returns: no pick is stopped meanwhile
 	}
 	if pn < 0 || pn >= len(h.cc.pubs) {
 		return "bad-op"
@@ -985,9 +1012,133 @@ func (h *vPool) doPick2(a map[string]string) string {
 	return strings.Join(out, " ; ")
 }
 
+// doScanPark: `pool scanpark call=<id> picker=<n> dones=<id>+<id>+…`: a plain pick is stopped inside its least-loaded scan
+// when it has read the counter of the first channel of its list; the calls named in dones= complete (err=other: no
+// binding, counts as a response); the pick continues. With counters that change only under the pick mutex the
+// completions wait for the pick (`dones=blocked`), otherwise they run in the middle of the scan (`dones=ran`).
+//   => placed sc=<n> | nosc ; dones=ran|blocked|none
+func (h *vPool) doScanPark(a map[string]string) string {
+	id, _ := strconv.Atoi(a["call"])
+	pn, _ := strconv.Atoi(a["picker"])
+	if !verifScanHookInstalled || pn < 0 || pn >= len(h.cc.pubs) || len(h.held) > 0 {
+		return "bad-op"
+	}
+	if _, dup := h.calls[id]; dup {
+		return "bad-op"
+	}
+	gp, ok := h.cc.pubs[pn].picker.(*gcpPicker)
+	if !ok || len(gp.scRefs) < 2 {
+		return "bad-op"
+	}
+	var dones []*vCall
+	for _, t := range strings.Split(a["dones"], "+") {
+		d, err := strconv.Atoi(t)
+		c, ok := h.calls[d]
+		if err != nil || !ok || d == id {
+			return "bad-op"
+		}
+		dones = append(dones, c)
+	}
+	for _, c := range dones {
+		delete(h.calls, c.id)
+	}
+	c := &vCall{id: id, result: make(chan string, 1), reply: &vMsg{}}
+	c.ctx = &vCtx{Context: context.Background(), doneCh: make(chan struct{}), entered: make(chan struct{}, 1)}
+	atomic.StoreInt32(&verifScanArmed, 2) // the second visit of the hook = the second channel of the list
+	go func() {
+		defer func() {
+			if r := recover(); r != nil {
+				c.result <- "PANIC"
+			}
+		}()
+		ctx := context.WithValue(context.Context(c.ctx), gcpKey, &gcpContext{reqMsg: mkReq("/"), replyMsg: c.reply})
+		r, err := gp.Pick(balancer.PickInfo{FullMethodName: "plain", Ctx: ctx})
+		switch {
+		case err == nil:
+			c.done = r.Done
+			c.sc = r.SubConn.(*vSubConn).id
+			c.result <- fmt.Sprintf("placed sc=%d", c.sc)
+		case err == balancer.ErrNoSubConnAvailable:
+			c.result <- "nosc"
+		default:
+			c.result <- "keyerr"
+		}
+	}()
+	var rel chan struct{}
+	first := ""
+	select {
+	case rel = <-verifScanParked:
+	case first = <-c.result: // the pick did not get into a scan over two channels
+	case <-time.After(3 * time.Second):
+		atomic.StoreInt32(&verifScanArmed, 0)
+		return "HANG"
+	}
+	atomic.StoreInt32(&verifScanArmed, 0)
+	finished := make(chan string, len(dones))
+	for _, d := range dones {
+		d := d
+		go func() {
+			finished <- guarded(func() string {
+				d.done(balancer.DoneInfo{Err: status.Error(codes.Unavailable, "unavailable"), BytesSent: true})
+				return "ok"
+			})
+		}()
+	}
+	how := "none"
+	got := 0
+	if rel != nil {
+		// do the completions get through while the scan is stopped?
+		timeout := time.After(30 * time.Millisecond)
+	wait:
+		for got < len(dones) {
+			select {
+			case r := <-finished:
+				if r != "ok" {
+					close(rel)
+					return r
+				}
+				got++
+			case <-timeout:
+				break wait
+			}
+		}
+		how = "blocked"
+		if got == len(dones) {
+			how = "ran"
+		} else if got > 0 {
+			how = "some"
+		}
+		close(rel)
+		select {
+		case first = <-c.result:
+		case <-time.After(3 * time.Second):
+			return "HANG"
+		}
+	}
+	for got < len(dones) {
+		select {
+		case r := <-finished:
+			if r != "ok" {
+				return r
+			}
+			got++
+		case <-time.After(3 * time.Second):
+			return "HANG"
+		}
+	}
+	if first == "PANIC" {
+		return "PANIC"
+	}
+	h.recordPlaced(c, first)
+	return first + " ; dones=" + how
+}
+
 // doDoneSwap: see the header. The completion goroutine is parked by the overlay's hook in front of bindSubConn's
 // lock, i.e. after the callback has read which connection its channel uses.
 func (h *vPool) doDoneSwap(a map[string]string) string {
+	if len(h.held) > 0 {
+		return "bad-op" // completions need the pick mutex, which a stopped pick holds
+	}
 	id, _ := strconv.Atoi(a["call"])
 	scid, _ := strconv.Atoi(a["sc"])
 	c, ok := h.calls[id]
@@ -1039,6 +1190,9 @@ func (h *vPool) doDoneSwap(a map[string]string) string {
 // doScsDone: see the header. Both goroutines have waited for the lock for more than a millisecond when it is released,
 // so the mutex hands it over in arrival order.
 func (h *vPool) doScsDone(a map[string]string) string {
+	if len(h.held) > 0 {
+		return "bad-op" // completions need the pick mutex, which a stopped pick holds
+	}
 	id, _ := strconv.Atoi(a["call"])
 	scid, _ := strconv.Atoi(a["sc"])
 	c, ok := h.calls[id]
@@ -1084,6 +1238,9 @@ func (h *vPool) doScsDone(a map[string]string) string {
 // doDoneCcs: see the header. The resolver update is started from inside the connection factory and given time to
 // run; on the clean tree it has to wait for the balancer lock that refresh() holds.
 func (h *vPool) doDoneCcs(a map[string]string) string {
+	if len(h.held) > 0 {
+		return "bad-op" // completions need the pick mutex, which a stopped pick holds
+	}
 	id, _ := strconv.Atoi(a["call"])
 	ver, _ := strconv.Atoi(a["addrs"])
 	c, ok := h.calls[id]
@@ -1142,6 +1299,9 @@ func (h *vPool) doDoneCcs(a map[string]string) string {
 // doDone2 completes two calls with a client-side deadline error from two goroutines while gb.mu is held by the
 // harness: whatever both do before they need the balancer lock has happened for both when it is released.
 func (h *vPool) doDone2(a map[string]string) string {
+	if len(h.held) > 0 {
+		return "bad-op" // completions need the pick mutex, which a stopped pick holds
+	}
 	ida, _ := strconv.Atoi(a["a"])
 	idb, _ := strconv.Atoi(a["b"])
 	ca, oka := h.calls[ida]
@@ -2333,6 +2493,27 @@ func (g *vGen) next(i int) string {
 		w := r.Intn(100)
 		line := ""
 		switch {
+		case w < 38 && verifScanHookInstalled && len(h.cc.pubs) > 0 && len(h.calls) >= 2 && len(h.held) == 0 && r.Intn(25) == 0:
+			// a plain pick stopped in the middle of its least-loaded scan while up to four calls in flight complete (F39)
+			pn := len(h.cc.pubs) - 1
+			if gp, ok := h.cc.pubs[pn].picker.(*gcpPicker); !ok || len(gp.scRefs) < 2 {
+				continue
+			}
+			ids := []int{}
+			for id := range h.calls {
+				ids = append(ids, id)
+			}
+			sort.Ints(ids)
+			r.Shuffle(len(ids), func(i, j int) { ids[i], ids[j] = ids[j], ids[i] })
+			if len(ids) > 4 {
+				ids = ids[:1+r.Intn(4)]
+			}
+			parts := []string{}
+			for _, id := range ids {
+				parts = append(parts, strconv.Itoa(id))
+			}
+			g.nextCall++
+			line = fmt.Sprintf("pool scanpark call=%d picker=%d dones=%s", g.nextCall, pn, strings.Join(parts, "+"))
 		case w < 38 && !g.rrOn && len(h.cc.pubs) > 0 && r.Intn(20) == 0:
 			// two concurrent plain picks (the pool's stream counts decide where they may go)
 			pn := len(h.cc.pubs) - 1
